@@ -11,11 +11,15 @@ import vlib
 PROP = 'C03'
 HEADER = ('From Coq Require Import ZArith List.\nImport ListNotations.\n'
           'From VIsa Require Import IsaState ExecImpl ExecSpec IsaCheck.\nOpen Scope Z_scope.\n')
-COQ_TARGETS = ['isa/IsaCheck.vo', 'props/C03.vo']
+COQ_TARGETS = ['isa/IsaCheck.vo', 'isa/ExecFThm.vo', 'props/C03.vo']
 
 # ---- known findings (proposed entries of known_findings.json), keyed by (alu, format, opcode)
 KNOWN_OPS = {
     ('cdna3', 'SOP1', 48): 's_abs_i32 sets SCC = (S0 < 0) instead of (D != 0); the pinned test TestSOP1Opcode48SABSI32 asserts this',
+    ('cdna3', 'VOP2', 23): 'v_fmamk_f32 is computed as float32(src0*K) + src1 with two roundings; the CDNA3 manual prescribes a fused multiply-add',
+    ('cdna3', 'VOP2', 24): 'v_fmaak_f32 is computed as float32(src0*src1) + K with two roundings; the CDNA3 manual prescribes a fused multiply-add',
+    ('cdna3', 'VOP2', 59): 'v_fmac_f32 is computed as float32(src0*src1) + dst with two roundings; the CDNA3 manual prescribes a fused multiply-add',
+    ('cdna3', 'VOP3A', 459): 'v_fma_f32 is computed as float32(src0*src1) + src2 with two roundings; the manual prescribes a fused multiply-add',
 }
 UNSUP_TEXT = 'vccz/execz as source operand panic ("Register type not supported")'
 
@@ -64,9 +68,9 @@ def proved_rows():
     """The (alu, format, opcode) rows covered by impl_eq_spec theorems, read from Coq."""
     src = os.path.join(vlib.COQ, 'cases', 'C03_rows.v')
     os.makedirs(os.path.dirname(src), exist_ok=True)
-    open(src, 'w').write('From Coq Require Import ZArith List.\nImport ListNotations.\nFrom VIsa Require Import IsaState ExecVThm.\nOpen Scope Z_scope.\nSet Printing Depth 100000.\nSet Printing Width 200.\n'
-                         'Definition G := Eval vm_compute in (proved_rows GCN3).\nPrint G.\n'
-                         'Definition C := Eval vm_compute in (proved_rows CDNA3).\nPrint C.\n')
+    open(src, 'w').write('From Coq Require Import ZArith List.\nImport ListNotations.\nFrom VIsa Require Import IsaState ExecVThm ExecFThm.\nOpen Scope Z_scope.\nSet Printing Depth 100000.\nSet Printing Width 200.\n'
+                         'Definition G := Eval vm_compute in (proved_rows GCN3 ++ frows GCN3).\nPrint G.\n'
+                         'Definition C := Eval vm_compute in (proved_rows CDNA3 ++ frows CDNA3).\nPrint C.\n')
     rc, log = vlib.run(['coqc'] + vlib.coq_q_args() + [os.path.relpath(src, vlib.COQ)], cwd=vlib.COQ, timeout=300)
     for ext in ('.v', '.vo', '.vok', '.vos', '.glob'):
         try:
@@ -84,6 +88,27 @@ def proved_rows():
             for f, op in re.findall(r'\(\s*F_(\w+),\s*(\d+)\s*\)', part):
                 res.add((alu, f, int(op)))
     return res
+
+
+float_axioms = set()
+
+
+def full_axioms(log):
+    """Print Assumptions blocks of the props log, including names whose type is printed on the next line."""
+    import re
+    blocks, cur = [], None
+    for line in log.split('\n'):
+        if line.startswith('Closed under the global context'):
+            blocks.append([])
+            cur = None
+        elif line.startswith('Axioms:'):
+            cur = []
+            blocks.append(cur)
+        elif cur is not None:
+            m = re.match(r'^([A-Za-z][A-Za-z0-9_\.\']*)\s*(:.*)?$', line)
+            if m:
+                cur.append(m.group(1))
+    return blocks
 
 
 def nontrivial(c):
@@ -117,7 +142,10 @@ def main(argv):
         rep.obligation('coq build', False)
         rep.violation({'broken': 'Coq development for C03 does not compile', 'log': (log + plog)[-4000:]}, nofail=True)
         return rep.finish()
-    for name, axioms in thms:
+    full = full_axioms(plog)
+    for k, (name, axioms) in enumerate(thms):
+        axioms = full[k] if k < len(full) and full[k] else axioms
+        float_axioms.update(axioms)
         rep.obligation('theorem ' + name + (' [axioms: %s]' % ', '.join(axioms) if axioms else ' [closed under the global context]'), True)
 
     ops = []
